@@ -145,6 +145,8 @@ type runState struct {
 	postNil int32              // post-handler calls that were handed a nil output (the execution had failed)
 	cancel  context.CancelFunc // cancels the context of this run (behaviour 5 of a node)
 	inner   []int32            // per node id: inner nodes (of the nested graph the node is) that are running
+	late    int32              // a nested graph node a successor of which started while an inner node of it was running (0 = none)
+	lateBy  int32
 }
 
 // hstate is the local state of a graph whose nodes carry state handlers
@@ -158,6 +160,7 @@ type runObs struct {
 	Log          []exec   `json:"log"`
 	Running      []int    `json:"running,omitempty"`       // bodies started and not finished at return
 	InnerRunning []int    `json:"inner_running,omitempty"` // nested graph nodes an inner node of which is running at return
+	Late, LateBy int      `json:"-"`
 	events       []compose.VerifC03Event
 	spawned      int
 	collect      int // completed collector sections (unlockC): a task counts as collected for the protocol model after it
@@ -190,6 +193,14 @@ func (b *built) body(n *Node) func(ctx context.Context, in map[string]any) (map[
 		}
 		atomic.AddInt32(&rs.starts[n.ID], 1)
 		atomic.StoreInt32(&rs.state[n.ID], 1)
+		// a predecessor that is a nested graph has completed, so its nested run - a Graph: it collects
+		// every task it started - has returned and none of its inner nodes is running any more
+		for _, p := range n.allPreds() {
+			if pn := b.byID[p]; pn != nil && pn.Sub > 0 && atomic.LoadInt32(&rs.inner[p]) > 0 {
+				atomic.StoreInt32(&rs.lateBy, int32(n.ID))
+				atomic.StoreInt32(&rs.late, int32(p))
+			}
+		}
 		var r []uint64
 		render(in, &r)
 		<-rs.logMu
@@ -293,6 +304,9 @@ func (b *built) subGraph(n *Node) (compose.AnyGraph, []compose.GraphAddNodeOpt, 
 			time.Sleep(time.Duration((h>>8)%400) * time.Microsecond)
 		case 3:
 			time.Sleep(time.Duration((h>>8)%1500) * time.Microsecond)
+		}
+		if n.Sub >= 3 && (h>>20)&1 == 0 {
+			time.Sleep(time.Duration(1+(h>>24)%3) * time.Millisecond) // outlast the body now and then
 		}
 		return map[string]any{}, nil
 	})); err != nil {
@@ -508,6 +522,7 @@ func (b *built) once(seed uint64, traced bool) *runObs {
 			o.InnerRunning = append(o.InnerRunning, id)
 		}
 	}
+	o.Late, o.LateBy = int(atomic.LoadInt32(&rs.late)), int(atomic.LoadInt32(&rs.lateBy))
 	var atReturn []compose.VerifC03Event
 	if traced {
 		atReturn = compose.VerifC03Events()
@@ -1618,6 +1633,10 @@ func (engine) Run(ci any) lib.Result {
 				fail("returned-before-nodes-finished",
 					fmt.Sprintf("%s run returned (%s) while an inner node of the nested graph node(s) %v was still running", c.Mode, o.Class, o.InnerRunning))
 			}
+		}
+		if o.Late != 0 {
+			fail("returned-before-nodes-finished",
+				fmt.Sprintf("delay seed %d: the nested graph node n%d had completed (its successor n%d was started) while one of its inner nodes was still running: the nested run returned before it had collected every task it started", seed, o.Late, o.LateBy))
 		}
 		if o.proto != "" {
 			fail("collect-bookkeeping", fmt.Sprintf("delay seed %d: %s", seed, o.proto))
